@@ -68,7 +68,8 @@ class Properties:
 
     def __call__(self, value):
         value = {
-            **{prop.name: NotPassed() for prop in self.props.values()},
+            # Placeholders are looked up like input keys: by JSON (source) name.
+            **{prop.source: NotPassed() for prop in self.props.values()},
             **value,
         }
         return {
